@@ -9,7 +9,7 @@ Extraction "model.ml"
   ParetoQ.pareto_fast_q ParetoQ.pareto_naive_q ParetoQ.pareto_ok ParetoQ.pareto_once ParetoQ.pareto_all
   Rect.rect_dom Rect.rect_dom_margin Rect.mkbox Rect.rect_update Rect.intersect Rect.check_intersection Rect.center Rect.slack_shape_ok
   Ellipsoid.ell_dom Ellipsoid.cov_witness_ok Ellipsoid.cov_separator_ok
-  RectCover.rect_cov RectCover.rect_cov_margin Pessimistic.check_dominates Pessimistic.in_ext_polytope Pessimistic.line_seg_pt_intersect_at_dim
+  RectCover.rect_cov RectCover.rect_cov_margin Pessimistic.check_dominates Pessimistic.pess_dec Pessimistic.in_ext_polytope Pessimistic.line_seg_pt_intersect_at_dim
   Tables.pv_round_tab Tables.vg_round_tab Tables.vg_pess_tab Tables.vg_discard_tab Tables.au_round_tab Tables.au_dom Tables.au_cov Tables.au_hold
   Optimize.opt_discrete Optimize.index_vals Optimize.decoupled_ok Optimize.global_topq_ok
   Empirical.emp_init Empirical.step Empirical.run Empirical.predict1.
